@@ -65,6 +65,16 @@ def items(tier, seed):
                 if tier == "quick" and sv != ni % 2:
                     continue
                 its.append({"inputs": list(inputs), "output": output, "name": name, "init": init, "sizes": sv, "tier": tier})
+    # deep annealing runs: several temperature steps with slicing in between (more draws than the history driver can
+    # leave fully symbolic): the first draws are solver-chosen one by one, the rest come from a solver-chosen stream
+    for ni, (inputs, output, name) in enumerate(NETWORKS):
+        if len(inputs) < 4:
+            continue
+        modes = ("basic", "reslice", 1, "drift")
+        for mi, mode in enumerate(modes):
+            if tier == "quick" and (ni + mi) % 4:
+                continue
+            its.append({"deep": True, "inputs": list(inputs), "output": output, "name": name, "init": ("caterpillar" if (ni + mi) % 2 else "greedy"), "sizes": 0, "slice_mode": mode, "tier": tier})
     return its
 
 
@@ -118,8 +128,51 @@ def reference(inputs, output, size, arrays, tree, cache):
     return cache[key], pv
 
 
+def deep_anneal(tree, rng, mode, target):
+    return tree.simulated_anneal(tsteps=3, numiter=2, tstart=2.0, tfinal=0.5, target_size=target, slice_mode=mode, seed=rng, inplace=True)
+
+
+def run_deep(item, rec):
+    tier = item["tier"]
+    inputs, output = tuple(item["inputs"]), item["output"]
+    labels = skel.all_labels(inputs)
+    size = size_of(labels, item["sizes"])
+    arrays = symarr.sym_arrays(inputs, size)
+    ref = symarr.as_obj_array(symarr.dense_einsum(inputs, output, size, arrays))
+    mode = item["slice_mode"]
+    target = max(2, initial_tree(inputs, output, size, item["init"]).max_size() // 2)
+    case0 = dict(inputs=list(inputs), output=output, size=size, init=item["init"], deep=True, slice_mode=mode, target=target)
+
+    def harness(ctx):
+        import random as _r
+
+        _r.seed(4242)
+        tree = initial_tree(inputs, output, size, item["init"])
+        rng = stubs.SymRng("an", uniform_mode="grid", random_mode="grid", free_draws=5)
+        rng.TAIL_STREAMS = 6
+
+        def viol(m):
+            return dict(case=case0, history=[], script=[[k, (list(x) if isinstance(x, (list, tuple)) else x)] for k, x in stubs.script_from_model(m, rng)],
+                        arrays=[a.tolist() for a in symarr.model_arrays(m, arrays)], signature=["C02deep", item["name"], item["init"], str(mode)])
+
+        with rec.guarded(ctx, "value after a multi-step annealing run == original einsum", viol):
+            deep_anneal(tree, rng, mode, target)
+            got = symarr.as_obj_array(tree.contract(arrays))
+        bad = True if got.shape != ref.shape else symarr.diff_formula(got, ref)
+        rec.refute(ctx, bad, "value after a multi-step annealing run == original einsum", viol)
+        return len(rng.draws)
+
+    out = symx.explore(harness, max_paths=(2500 if tier == "quick" else 40000), deadline_s=(25 if tier == "quick" else 300))
+    rec.add_explore(out)
+    rec.sample(dict(network=item["name"], deep_anneal=dict(tsteps=3, numiter=2, target_size=target, slice_mode=str(mode)), paths=out.paths,
+                    rng="first 5 draws solver-chosen (grid), then one of 6 solver-chosen pseudo-random streams", draws_per_run=sorted(set(r for r in out.results if r))[-3:]))
+    rec.validated += 1
+
+
 def run_item(item, rec):
     warnings.simplefilter("ignore")
+    if item.get("deep"):
+        return run_deep(item, rec)
     tier = item["tier"]
     inputs, output = tuple(item["inputs"]), item["output"]
     labels = skel.all_labels(inputs)
@@ -181,6 +234,28 @@ def replay(v):
     case = v["case"]
     inputs, output, size = tuple(case["inputs"]), case["output"], case["size"]
     hist = v["history"]
+    if case.get("deep"):
+        tries = []
+        if v.get("arrays"):
+            tries.append([np.array(a, dtype=float).reshape(tuple(size[c] for c in t)) for a, t in zip(v["arrays"], inputs)])
+        tries.append(symarr.generic_arrays(inputs, size, seed=13))
+        for arrays in tries:
+            import random as _r
+
+            _r.seed(4242)
+            tree = initial_tree(inputs, output, size, case["init"])
+            try:
+                deep_anneal(tree, stubs.ScriptedRng([tuple(x) for x in v["script"]]), case["slice_mode"], case["target"])
+                got = np.asarray(tree.contract(arrays))
+            except Exception as e:  # noqa
+                if v.get("raised"):
+                    return True, f"simulated_anneal(tsteps=3, numiter=2, target_size={case['target']}, slice_mode={case['slice_mode']!r}) + contract raised {e!r} on the solver's draw sequence"
+                return False, f"replay raised {e!r} (scripted rng diverged?)"
+            want = symarr.np_reference(inputs, output, size, arrays)
+            if got.shape != want.shape or not np.allclose(got, want, rtol=1e-9, atol=1e-12):
+                return True, (f"{','.join(inputs)}->{output}: after simulated_anneal(tsteps=3, numiter=2, target_size={case['target']}, slice_mode={case['slice_mode']!r}) on the solver's draw "
+                              f"sequence ({len(v['script'])} draws) the tree (sliced {sorted(tree.sliced_inds)}) contracts to a different value (max deviation {np.max(np.abs(got - want)) if got.shape == want.shape else 'shape'})")
+        return False, "value preserved on the recorded draw sequence"
     tries = []
     if v.get("arrays"):
         tries.append([np.array(a, dtype=float).reshape(tuple(size[c] for c in t)) for a, t in zip(v["arrays"], inputs)])
